@@ -74,6 +74,8 @@ def explore_c20(rng, tier, res, deep=False):
                 kind = "blank"
             if 72 <= i < 80:
                 kind = "dupkeys"
+            if 80 <= i < 91:
+                kind = "type"  # each ill-typed / wrong-arity query once, whatever the seed
             q = walk_query(rng, doc, g, filters=True) if rng.random() < 0.5 else g.query()
             FALSY = [{}, [], "", 0, False, None, 0.0, -0.0]
             if i < 2 * len(FALSY):
@@ -118,7 +120,10 @@ def explore_c20(rng, tier, res, deep=False):
             if kind == "syntax":
                 q = rng.choice(["$[", "$.a b", "$[?@.a==01]", "$[?@.a &&]", "$..", "$['\\x']", "$[1:2:3:4]"])
             elif kind == "type":
-                q = rng.choice(["$[?count(@.a)]", "$[?length(@.*)==1]", "$[?@.*==1]", "$[?match(@.a)]"])
+                q = (lambda xs: xs[(i - 80) % len(xs)] if 80 <= i < 91 else rng.choice(xs))(["$[?count(@.a)]", "$[?length(@.*)==1]", "$[?@.*==1]", "$[?match(@.a)]",
+                                # too many arguments, a surplus one in parentheses / negated; too few; nested
+                                "$[?length(@.a, (@.b)) == 1]", "$[?count(@.*, (@.a)) > 1]", "$[?match(@.a, 'x', (@.b == 1))]", "$[?value(@.a, !@.b) == 1]",
+                                "$[?search(@.a)]", "$[?length() == 1]", "$[?length(count(@.a, (1))) == 1]"])
             elif kind == "index":
                 q = rng.choice(["$[9007199254740992]", "$[:-9007199254740992]"])
             elif kind == "name":
